@@ -84,6 +84,7 @@ var bPairs = []bPairDef{
 	{"Abs", "ABS", "BAbsP", 1, false, false}, {"Set", "SET", "BSetP", 1, false, false}, {"Pow", "POW", "BPowP", 2, false, false},
 	{"Sqrt", "SQRT", "BSqrtP", 1, false, false}, {"Exp", "EXP", "BExpP", 1, false, false}, {"Log", "LOG", "BLogP", 1, false, false},
 	{"Log1p", "LOG1P", "BLog1pP", 1, false, false},
+	{"LogAdd", "LOGADD", "BLogAddP", 3, false, false}, {"LogSub", "LOGSUB", "BLogSubP", 3, false, false},
 	{"Greater", "GREATER", "BGreaterP", 1, true, false}, {"Smaller", "SMALLER", "BSmallerP", 1, true, false},
 	{"Sign", "SIGN", "BSignP", 0, true, false}, {"Equals", "EQUALS", "BEqualsP", 1, true, true},
 }
@@ -103,6 +104,8 @@ func runB(c BCaseRaw, d bPairDef, conc bool) string {
 	for i := 1; i <= d.Ar; i++ {
 		if i == 1 && c.Alias {
 			objs = append(objs, objs[0])
+		} else if i == 3 {
+			objs = append(objs, ad.NullScalar(scalarType(c.Type))) // the temporary of LogAdd / LogSub
 		} else {
 			objs = append(objs, buildB(c.Type, c.Vals[i]))
 		}
@@ -190,6 +193,35 @@ func genBCase(r *Rng, w *CaseWriter, k int) {
 		ent(22, x, y, math.Pow(x, y))
 	case "Sqrt":
 		ent(22, x, 0.5, math.Pow(x, 0.5))
+	case "LogAdd", "LogSub":
+		// the libm calls of the sequence, on the intermediate values Go itself produces (generic operations on a temporary)
+		func() {
+			defer func() { recover() }()
+			a, b := ad.Scalar(buildB(t, c.Vals[1])), ad.Scalar(buildB(t, c.Vals[2]))
+			tt := ad.NullScalar(scalarType(t))
+			if d.G == "LogAdd" {
+				if a.Greater(b) {
+					a, b = b, a
+				}
+				if math.IsInf(a.GetFloat64(), 0) {
+					return
+				}
+				tt.Sub(a, b)
+			} else {
+				if math.IsInf(b.GetFloat64(), -1) {
+					return
+				}
+				tt.Sub(b, a)
+			}
+			x1 := tt.GetFloat64()
+			ent(1, x1, 0, math.Exp(x1))
+			tt.Exp(tt)
+			if d.G == "LogSub" {
+				tt.Neg(tt)
+			}
+			x2 := tt.GetFloat64()
+			ent(3, x2, 0, math.Log1p(x2))
+		}()
 	}
 	var coq string
 	if d.Pred {
@@ -227,9 +259,9 @@ const hdrB = "From Coq Require Import ZArith List Bool Floats. Import ListNotati
 func emitBCases(o Opts) {
 	w := NewCaseWriter(o.Out, "bcases", hdrB, "mism", 200)
 	w.Type = "bcase"
-	w.Rule = "B: bare scalar pairs (Float64 Float32 Int Int8..Int64; Add..Div Neg Min Max Abs Set Pow Sqrt Exp Log Log1p, predicates): receiver and operands with values of the type incl. the integer range ends, +-0, +-Inf, NaN, receiver = operand in 1 of 5; non-trivial iff the pair is not Set/Sign"
+	w.Rule = "B: bare scalar pairs (Float64 Float32 Int Int8..Int64; Add..Div Neg Min Max Abs Set Pow Sqrt Exp Log Log1p LogAdd LogSub, predicates): receiver and operands with values of the type incl. the integer range ends, +-0, +-Inf, NaN, receiver = operand in 1 of 5; non-trivial iff the pair is not Set/Sign"
 	rng := NewRng(o.Seed + 31337)
-	for k := 0; k < 13*o.N; k++ {
+	for k := 0; k < 14*o.N; k++ {
 		genBCase(rng.Split(), w, k)
 	}
 	if err := w.Flush(); err != nil {
